@@ -16,7 +16,8 @@ model's answer).
   subgraph) and that is **no output of the graph**: `a` is dead after `o`.  For the elementwise branch under any rules;
   for the Memcpy branch under the rule "a write protected IFM is refused" (/verif_patches/C01-27).
 * `fuse_dead_after` — the same as `InPlaceSpec.DeadAfter` over the operator order, `fuse_share_safe` as "the Spec
-  checker `unsafeShares` accepts the decision".
+  checker `unsafeShares` accepts the decision", `fuse_arena_dies` over the order of `Spec/Arena.lean`:
+  `Arena.dies (planOf g) a = o + 1`.
 * `fused_not_variable` — under the rules of /verif_patches/C12-11 the chosen tensor is no variable tensor.
 * `fuse_safe_memcpy_witness`, `fuse_safe_variable_witness` — both are FALSE of the rules without those conditions:
   concrete graphs on which the model (like the real code: replayed by `./check C12`) fuses a tensor that is still needed.
@@ -87,6 +88,30 @@ theorem fuse_share_safe (ru : FuseRules) (g : Graph) (hwf : g.wf = true) (s : St
     | false => rfl
     | true => exact absurd (List.contains_iff_mem.mp hc) hout
   simp [InPlaceSpec.unsafeShares, hn]
+
+/-- **fuse_arena_dies.**  The same over the operator order of `Spec/Arena.lean` (the judgement `./check C12` applies to the
+    arena plan of every output model): in the plan of the graph (`planOf`: one operator per pass, in pass order)
+    `Arena.dies` of the source tensor is `o + 1`, "during operator `o`" — exactly the moment at which
+    `Arena.handoverAllowed` lets the output of operator `o` take its bytes. -/
+theorem fuse_arena_dies (ru : FuseRules) (g : Graph) (hwf : g.wf = true) (s : St) (hs : extract g = .ok s)
+    (hm : s.usedMultiple = false) (d : FuseDesc) (o x : Nat) (hsg : g.sg o ≠ 0)
+    (hru : ru.memcpyWp = true ∨ (d.elementwise = true ∧ d.varWrite = false))
+    (hf : fused ru g s d o = some x) :
+    ∃ a, (x = a ∨ s.src x = some a) ∧ Arena.dies (planOf g) a = o + 1 := by
+  have hW := g.wf_WF hwf
+  obtain ⟨a, _, hxa, hr, hl, hout⟩ := fuse_safe ru g hwf s hs hm d o x hsg hru hf
+  have hr' : a ∈ g.R0 o := List.contains_iff_mem.mp hr
+  refine ⟨a, hxa, dies_planOf hout hr' ?_ ?_⟩
+  · intro q hq hmem
+    have := hl q hq
+    rw [Graph.readsAt, List.contains_iff_mem.mpr hmem] at this
+    exact Bool.noConfusion this
+  · intro k hk
+    obtain ⟨_, hmem⟩ := hW.outputs_prod k a hk
+    obtain ⟨_, hall⟩ := hW.reads_prod o a hr'
+    obtain ⟨i, hi, hlt, _⟩ := hall _ hmem
+    cases hi
+    exact hlt
 
 /-- **write_protection_complete.**  The clone `x` that the boundary rewrite makes of tensor `a` for NPU subgraph `k` is
     write protected whenever `a` is an output of the graph, or a pass `o` reads the clone and `a` has another reader
